@@ -303,16 +303,57 @@ func recordLocking(pi *pkgInfo, d *ast.FuncDecl) {
 	})
 }
 
-// filterShape: rtcmfilter's writeRTCMMessages skips a message exactly when its type is NonRTCMMessage and writes
-// message.RawData: the function has one continue statement, guarded by that comparison, and its only Write call
-// has that argument.
-func filterShape(pi *pkgInfo) bool {
-	d := pi.funcs["writeRTCMMessages"]
-	if d == nil {
+// reachable returns the declarations of root and of the functions of the same package it calls, transitively
+// (by name; a name that is both a function and a method is followed once).
+func reachable(pi *pkgInfo, root string) []*ast.FuncDecl {
+	var out []*ast.FuncDecl
+	seen := map[string]bool{}
+	var visit func(name string)
+	visit = func(name string) {
+		if seen[name] {
+			return
+		}
+		seen[name] = true
+		d := pi.funcs[name]
+		if d == nil {
+			return
+		}
+		out = append(out, d)
+		callees := make([]string, 0, len(pi.calls[name]))
+		for c := range pi.calls[name] {
+			callees = append(callees, c)
+		}
+		sort.Strings(callees)
+		for _, c := range callees {
+			visit(c)
+		}
+	}
+	visit(root)
+	return out
+}
+
+func isNilCompare(e ast.Expr, x string, op token.Token) bool {
+	b, ok := e.(*ast.BinaryExpr)
+	if !ok || b.Op != op {
 		return false
 	}
-	continues, guarded, writes, goodWrites := 0, 0, 0, 0
-	ast.Inspect(d.Body, func(m ast.Node) bool {
+	l, r := types.ExprString(b.X), types.ExprString(b.Y)
+	return l == x && r == "nil" || l == "nil" && r == x
+}
+
+// filterShape: rtcmfilter's writeRTCMMessages skips a message exactly when its type is NonRTCMMessage and writes
+// that message's RawData.  Accepted formulations (m is the loop's message variable):
+//   - one continue statement in the function, the whole body of  if m.MessageType == utils.NonRTCMMessage { continue }
+//   - exactly one Write call in the function and the unexported helpers it calls; its argument is m.RawData, or
+//     a parameter of a helper to which writeRTCMMessages passes m.RawData.
+func filterShape(pi *pkgInfo) bool {
+	root := pi.funcs["writeRTCMMessages"]
+	if root == nil {
+		return false
+	}
+	continues, guarded := 0, 0
+	msgVar := ""
+	ast.Inspect(root.Body, func(m ast.Node) bool {
 		switch x := m.(type) {
 		case *ast.BranchStmt:
 			if x.Tok == token.CONTINUE {
@@ -320,76 +361,168 @@ func filterShape(pi *pkgInfo) bool {
 			}
 		case *ast.IfStmt:
 			if len(x.Body.List) == 1 && x.Else == nil && x.Init == nil {
-				if b, ok := x.Body.List[0].(*ast.BranchStmt); ok && b.Tok == token.CONTINUE &&
-					types.ExprString(x.Cond) == "message.MessageType == utils.NonRTCMMessage" {
-					guarded++
-				}
-			}
-		case *ast.CallExpr:
-			if sel, ok := x.Fun.(*ast.SelectorExpr); ok && sel.Sel.Name == "Write" {
-				writes++
-				if len(x.Args) == 1 && types.ExprString(x.Args[0]) == "message.RawData" {
-					goodWrites++
-				}
-			}
-		}
-		return true
-	})
-	return continues == 1 && guarded == 1 && writes == 1 && goodWrites == 1
-}
-
-// fanoutShape: appcore's HandleMessagesUntilEOF sends every message to every non-nil channel in index order:
-//   for i := range appCore.Channels { if appCore.Channels[i] != nil { appCore.Channels[i] <- message } }
-// and that is the only send statement of the function.
-func fanoutShape(pi *pkgInfo) bool {
-	d := pi.funcs["HandleMessagesUntilEOF"]
-	if d == nil {
-		return false
-	}
-	sends, good := 0, 0
-	ast.Inspect(d.Body, func(m ast.Node) bool {
-		switch x := m.(type) {
-		case *ast.SendStmt:
-			sends++
-		case *ast.RangeStmt:
-			if types.ExprString(x.X) == "appCore.Channels" && x.Value == nil && len(x.Body.List) == 1 {
-				if is, ok := x.Body.List[0].(*ast.IfStmt); ok && is.Else == nil && is.Init == nil && len(is.Body.List) == 1 &&
-					types.ExprString(is.Cond) == "appCore.Channels[i] != nil" {
-					if ss, ok := is.Body.List[0].(*ast.SendStmt); ok &&
-						types.ExprString(ss.Chan) == "appCore.Channels[i]" && types.ExprString(ss.Value) == "message" {
-						good++
+				if b, ok := x.Body.List[0].(*ast.BranchStmt); ok && b.Tok == token.CONTINUE {
+					if c, ok := x.Cond.(*ast.BinaryExpr); ok && c.Op == token.EQL {
+						l, r := types.ExprString(c.X), types.ExprString(c.Y)
+						if r != "utils.NonRTCMMessage" {
+							l, r = r, l
+						}
+						if r == "utils.NonRTCMMessage" && strings.HasSuffix(l, ".MessageType") && !strings.Contains(strings.TrimSuffix(l, ".MessageType"), ".") {
+							guarded++
+							msgVar = strings.TrimSuffix(l, ".MessageType")
+						}
 					}
 				}
 			}
 		}
 		return true
 	})
+	if continues != 1 || guarded != 1 {
+		return false
+	}
+	writes, good := 0, 0
+	for _, d := range reachable(pi, "writeRTCMMessages") {
+		params := map[string]int{}
+		n := 0
+		for _, f := range d.Type.Params.List {
+			for _, id := range f.Names {
+				params[id.Name] = n
+				n++
+			}
+		}
+		ast.Inspect(d.Body, func(m ast.Node) bool {
+			call, ok := m.(*ast.CallExpr)
+			if !ok {
+				return true
+			}
+			sel, ok := call.Fun.(*ast.SelectorExpr)
+			if !ok || sel.Sel.Name != "Write" {
+				return true
+			}
+			writes++
+			if len(call.Args) != 1 {
+				return true
+			}
+			arg := types.ExprString(call.Args[0])
+			if d == root {
+				if arg == msgVar+".RawData" {
+					good++
+				}
+				return true
+			}
+			// a helper: the argument must be one of its parameters, and writeRTCMMessages must pass m.RawData there
+			idx, isParam := params[arg]
+			if !isParam {
+				return true
+			}
+			passes, calls := 0, 0
+			ast.Inspect(root.Body, func(k ast.Node) bool {
+				if c, ok := k.(*ast.CallExpr); ok {
+					if id, ok := c.Fun.(*ast.Ident); ok && id.Name == d.Name.Name {
+						calls++
+						if idx < len(c.Args) && types.ExprString(c.Args[idx]) == msgVar+".RawData" {
+							passes++
+						}
+					}
+				}
+				return true
+			})
+			if calls == 1 && passes == 1 {
+				good++
+			}
+			return true
+		})
+	}
+	return writes == 1 && good == 1
+}
+
+// fanoutShape: appcore's HandleMessagesUntilEOF sends every message to every non-nil channel in index order and
+// sends nothing else: in the function and the functions of the package it calls there is exactly one send
+// statement; it sends an identifier and sits in a loop over <x>.Channels of one of these forms (c is
+// <x>.Channels[i] for the loop's index i, or the loop's value variable):
+//   for ... range <x>.Channels { if c != nil { c <- message } }
+//   for ... range <x>.Channels { if c == nil { continue }; c <- message }
+func fanoutShape(pi *pkgInfo) bool {
+	if pi.funcs["HandleMessagesUntilEOF"] == nil {
+		return false
+	}
+	sends, good := 0, 0
+	for _, d := range reachable(pi, "HandleMessagesUntilEOF") {
+		ast.Inspect(d.Body, func(m ast.Node) bool {
+			switch x := m.(type) {
+			case *ast.SendStmt:
+				sends++
+			case *ast.RangeStmt:
+				sel, ok := x.X.(*ast.SelectorExpr)
+				if !ok || sel.Sel.Name != "Channels" {
+					return true
+				}
+				var names []string
+				if id, ok := x.Key.(*ast.Ident); ok && id.Name != "_" {
+					names = append(names, types.ExprString(x.X)+"["+id.Name+"]")
+				}
+				if id, ok := x.Value.(*ast.Ident); ok && id.Name != "_" {
+					names = append(names, id.Name)
+				}
+				for _, c := range names {
+					var send *ast.SendStmt
+					switch len(x.Body.List) {
+					case 1:
+						if is, ok := x.Body.List[0].(*ast.IfStmt); ok && is.Else == nil && is.Init == nil && len(is.Body.List) == 1 &&
+							isNilCompare(is.Cond, c, token.NEQ) {
+							send, _ = is.Body.List[0].(*ast.SendStmt)
+						}
+					case 2:
+						if is, ok := x.Body.List[0].(*ast.IfStmt); ok && is.Else == nil && is.Init == nil && len(is.Body.List) == 1 &&
+							isNilCompare(is.Cond, c, token.EQL) {
+							if b, ok := is.Body.List[0].(*ast.BranchStmt); ok && b.Tok == token.CONTINUE && b.Label == nil {
+								send, _ = x.Body.List[1].(*ast.SendStmt)
+							}
+						}
+					}
+					if send != nil && types.ExprString(send.Chan) == c {
+						if _, ok := send.Value.(*ast.Ident); ok {
+							good++
+						}
+					}
+				}
+			}
+			return true
+		})
+	}
 	return sends == 1 && good == 1
 }
 
 // byteDriven: the framer reads its input only through ByteChannel.GetNextByte / PushBack and knows no clock:
-// in rtcm/handler the frame-scanning functions call no other method on the byte channel, contain no select
-// statement and do not mention package time; package rtcm/pushback contains no select statement and does not
-// import time.  (A framer that flushes on a timer would make the segmentation depend on when bytes arrive.)
+// FetchNextMessageFrame and the functions of rtcm/handler it calls contain no select statement, no channel
+// receive, do not mention package time and call no method of package rtcm/pushback other than GetNextByte and
+// PushBack; package rtcm/pushback contains no select statement; neither reads a clock or sets a timer
+// (time.Now, After, AfterFunc, Sleep, NewTimer, NewTicker, Tick, Since, Until).
+// (A framer that flushes on a timer would make the segmentation depend on when bytes arrive.)
+var clockCalls = map[string]bool{"Now": true, "After": true, "AfterFunc": true, "Sleep": true, "NewTimer": true,
+	"NewTicker": true, "Tick": true, "Since": true, "Until": true}
+
 func byteDriven(handler, pushback *pkgInfo) bool {
-	for _, fn := range []string{"FetchNextMessageFrame", "eatUntilStartOfFrame"} {
-		d := handler.funcs[fn]
-		if d == nil {
-			return false
-		}
+	if handler.funcs["FetchNextMessageFrame"] == nil {
+		return false
+	}
+	for _, d := range reachable(handler, "FetchNextMessageFrame") {
 		ok := true
 		ast.Inspect(d.Body, func(m ast.Node) bool {
 			switch x := m.(type) {
 			case *ast.SelectStmt:
 				ok = false
+			case *ast.UnaryExpr:
+				if x.Op == token.ARROW {
+					ok = false
+				}
 			case *ast.SelectorExpr:
-				if id, isId := x.X.(*ast.Ident); isId {
-					if id.Name == "time" {
-						ok = false
-					}
-					if id.Name == "pc" && x.Sel.Name != "GetNextByte" && x.Sel.Name != "PushBack" {
-						ok = false
-					}
+				if id, isId := x.X.(*ast.Ident); isId && id.Name == "time" && clockCalls[x.Sel.Name] {
+					ok = false
+				}
+				if _, isPB := pushback.funcs[x.Sel.Name]; isPB && handler.funcs[x.Sel.Name] == nil &&
+					x.Sel.Name != "GetNextByte" && x.Sel.Name != "PushBack" && x.Sel.Name != "New" {
+					ok = false
 				}
 			}
 			return true
@@ -405,7 +538,7 @@ func byteDriven(handler, pushback *pkgInfo) bool {
 			case *ast.SelectStmt:
 				bad = true
 			case *ast.SelectorExpr:
-				if id, isId := x.X.(*ast.Ident); isId && id.Name == "time" {
+				if id, isId := x.X.(*ast.Ident); isId && id.Name == "time" && clockCalls[x.Sel.Name] {
 					bad = true
 				}
 			}
